@@ -402,7 +402,8 @@ def scan_cases(alg, slice_idx, seed):
     b = BLOCK[alg]
     rng = Rng(PROP, "stackscan", seed, alg, slice_idx)
     out = []
-    for kl in (1, 16, 33, b - 1, b, b + 1, 2 * b + 3, rng.below(3 * b) + 1):
+    # at least 16 keyed octets: a needle with one keyed octet in front of a run of the public constant proves nothing
+    for kl in (16, 17, 33, b - 1, b, b + 1, 2 * b + 3, rng.below(3 * b - 16) + 16):
         for entry in ("stream", "oneshot", "get", "hex"):
             # no zero key byte: a zero byte makes the pad equal to the public constant 0x36/0x5c there, and
             # a run of the bare constant (e.g. a spilled vector register) is not a keyed pad
@@ -517,7 +518,7 @@ def radius_scan_cases(seed):
     for code in RADIUS_CODES:
         for have_req in (0, 1):
             for inside in (0, 1):
-                kl = rng.choice([1, 16, 40, 64, 65, 100])
+                kl = rng.choice([16, 17, 40, 64, 65, 100])
                 key = bytes(rng.below(255) + 1 for _ in range(kl))
                 before = b"\x01\x07alice"
                 ma = b"\x50\x12" + bytes(16)
